@@ -6,6 +6,7 @@ import Lean.Data.Json
 import Cnl2aspModel.Compiler.TemporalRange
 import Cnl2aspModel.Compiler.Cli
 import Cnl2aspModel.Asp.PrintAtom
+import Cnl2aspModel.Asp.PrintProg
 import Cnl2aspModel.Compiler.Route
 import Cnl2aspModel.Compiler.Signatures
 import Cnl2aspModel.Compiler.Naming
@@ -336,6 +337,61 @@ def linecol (j : Json) : Json :=
 
 end Ops
 
+namespace C06P
+open PrintAtom PrintProg Ops
+
+instance : Inhabited Elem := ⟨.val ""⟩
+
+def jarr (j : Json) (k : String) : List Json :=
+  match j.getObjVal? k with
+  | .ok (Json.arr a) => a.toList
+  | _ => []
+
+partial def parseElem (j : Json) : Elem :=
+  match jstr j "t" with
+  | "atom" => .atom (parseAtom j)
+  | "op" =>
+    let k := match jstr j "k" with
+      | "angle" => OpKind.angle | "temporal" => OpKind.temporal | _ => OpKind.plain
+    .op k (jstr j "sym") ((jarr j "args").map parseElem)
+  | "agg" => .agg (jstr j "sym") ((jarr j "disc").map parseElem) ((jarr j "body").map parseElem)
+  | "tel" => .tel (jbool j "neg") ((jarr j "ops").map parseElem)
+  | _ => .val (jstr j "s")
+
+def parseRule (j : Json) : Rule :=
+  let head := (jarr j "head").map fun h => ({ elem := parseElem ((h.getObjVal? "elem").toOption.getD Json.null),
+                                              cond := (jarr h "cond").map parseElem } : Head)
+  let card : Option (String × String) := match j.getObjVal? "card" with
+    | .ok (Json.arr #[Json.str lo, Json.str hi]) => some (lo, hi)
+    | _ => none
+  let weak : Option (String × String × List Elem) := match j.getObjVal? "weak" with
+    | .ok w@(Json.obj _) => some (jstr w "weight", jstr w "level", (jarr w "disc").map parseElem)
+    | _ => none
+  { head := head, body := (jarr j "body").map parseElem, card := card, weak := weak }
+
+def mode (j : Json) : Mode :=
+  if jbool j "fn" then
+    let pairs : List (String × String) := (jarr j "eqpairs").filterMap fun p => match p with
+      | Json.arr #[Json.str x, Json.str y] => some (x, y)
+      | _ => none
+    some (fun x y => x == y || pairs.contains (x, y))
+  else none
+
+def parseEncoding (j : Json) : Encoding :=
+  { consts := (jarr j "consts").filterMap fun c => match c with
+      | Json.arr #[Json.str n, Json.str v] => some (n, v)
+      | _ => none,
+    programs := (jarr j "programs").map fun p => { name := jstr p "name", rules := (jarr p "rules").map parseRule } }
+
+/-- print a whole encoding and each of its rules -/
+def print (j : Json) : Json :=
+  let m := mode j
+  let e := parseEncoding j
+  Json.mkObj [("text", Json.str (printEncoding m e)),
+              ("rules", Json.arr ((e.programs.flatMap fun p => p.rules.map fun r => Json.str (printRule m r)).toArray))]
+
+end C06P
+
 def dispatch (op : String) (j : Json) : Json :=
   match op with
   | "c16.values" => Ops.c16values j
@@ -354,6 +410,7 @@ def dispatch (op : String) (j : Json) : Json :=
   | "c17.check" => Ops.C17.run j
   | "c15.printer" => Ops.c15printer j
   | "c06.value" => Ops.c06value j
+  | "c06.print" => C06P.print j
   | "c01.compile" => Core.Codec.compileOp j
   | "c04.compile" => Core.Codec.compilePrefsOp j
   | "c01.ref" => Core.Codec.refOp j
